@@ -140,9 +140,35 @@ impl Runner {
                 }
                 self.after(mode, None)
             }
+            ["scope"] | ["endscope"] => {
+                if !c.scope_op(w[0], None) {
+                    return "bad-op".into();
+                }
+                "ok".into()
+            }
+            ["cleanupscope", k] => {
+                let Ok(k) = k.parse::<usize>() else { return "bad-op".into() };
+                if !c.scope_op("cleanupscope", Some(k)) {
+                    return "bad-op".into();
+                }
+                self.after(mode, None)
+            }
+            ["disposew", id] => {
+                let Ok(id) = id.parse::<usize>() else { return "bad-op".into() };
+                if !c.dispose_wrapper(id) {
+                    return "bad-op".into();
+                }
+                self.after(mode, None)
+            }
             ["oncl"] => {
                 c.set_oncl();
                 "ok".into()
+            }
+            ["ssig", ..] | ["slice", ..] | ["sel", ..] | ["eff", ..] | ["reff", ..] | ["seff", ..] | ["ieff", ..] | ["weff", ..]
+            | ["wieff", ..] | ["wseff", ..] | ["wsieff", ..] | ["rieff", ..] | ["imeff", ..]
+                if c.in_scope() =>
+            {
+                "bad-op".into()
             }
             ["ssig", a, b] => {
                 let (Ok(a), Ok(b)) = (a.parse::<i64>(), b.parse::<i64>()) else { return "bad-op".into() };
@@ -375,6 +401,27 @@ impl Runner {
             let mut g = c.sh.lock().unwrap();
             (std::mem::take(&mut g.cl_calls), g.oncl, g.imm.clone())
         };
+        // a run's cleanup is called when the next run supersedes it or when the effect is disposed - not while the
+        // effect is alive and idle
+        {
+            let mut seen: Vec<usize> = vec![];
+            for e in &cl_calls {
+                if seen.contains(e) {
+                    continue;
+                }
+                seen.push(*e);
+                let calls = cl_calls.iter().filter(|x| *x == e).count();
+                let ran = log.iter().filter(|r| r.node == *e).count();
+                let before = c.sh.lock().unwrap().runs[*e] as usize - ran;
+                let superseded = if before == 0 { ran.saturating_sub(1) } else { ran };
+                let disposed = c.effs.iter().find(|s| s.node == *e).map(|s| !s.alive).unwrap_or(false);
+                if calls > superseded && !disposed {
+                    c.sh.lock().unwrap().bad.get_or_insert(format!(
+                        "cleanup-early effect {e}: {calls} on_cleanup call(s), {superseded} run(s) superseded, effect not disposed"
+                    ));
+                }
+            }
+        }
         match mode {
             Mode::C01 => match read {
                 Some((id, v)) => {
